@@ -1232,10 +1232,81 @@ def configurations(ctx):
     ctx.oracle_count("argument-shapes", n, n)
 
 
+# --------------------------------------------------------------------------- pair level: different (secret, salt), same key
+# The statement says a token issued under a different secret or salt is rejected.  The code derives the HMAC key as the plain
+# concatenation of the encoded salt and secret, so distinct pairs can share a key; each mechanism has its own key
+# (known findings: the derivation cannot be changed without invalidating every issued cookie, and tests pin it).
+def hmac_effective_key(key, alg):
+    bs = hashlib.new(alg).block_size
+    if len(key) > bs:
+        key = hashlib.new(alg, key).digest()
+    return key.ljust(bs, b"\0")
+
+
+def latin1_able(x):
+    try:
+        (x or "").encode("latin-1")
+        return True
+    except UnicodeEncodeError:
+        return False
+
+
+def check_pair_case(case):
+    s1, l1, s2, l2, alg = case["secret1"], case["salt1"], case["secret2"], case["salt2"], case["alg"]
+    v = json.loads(case["value"])
+    if (s1, l1 or "") == (s2, l2 or ""):
+        return None
+    t = ref_token(s1, l1, alg, v)
+    ok, r = run_catch(make_serializer(s2, l2, alg).loads, t)
+    if not ok:
+        if r != "ValueError":
+            return "loads:wrong-exception", "loads raised %s for a token of another (secret, salt) pair" % r
+        return None
+    k1, k2 = ref_key(s1, l1), ref_key(s2, l2)
+    what = "loads() under secret=%r salt=%r accepted (-> %r) the token issued under secret=%r salt=%r (%s)" % (s2, l2, r, s1, l1, alg)
+    if k1 == k2:
+        if (latin1_able(s1) and latin1_able(l1)) != (latin1_able(s2) and latin1_able(l2)):
+            return "foreign-pair-accepted:latin1-utf8-fallback", what + ": the latin-1 encoding of one pair equals the utf-8 fallback of the other"
+        return "foreign-pair-accepted:salt-secret-boundary", what + ": same concatenation salt+secret"
+    if hmac_effective_key(k1, alg) == hmac_effective_key(k2, alg):
+        bs = hashlib.new(alg).block_size
+        if len(k1) <= bs and len(k2) <= bs:
+            return "foreign-pair-accepted:hmac-zero-padding", what + ": keys differ only in trailing NUL octets, which HMAC pads anyway"
+        return "foreign-pair-accepted:hmac-long-key-hashed", what + ": HMAC replaces a key longer than the block by its hash"
+    return "foreign-pair-accepted:other", what
+
+
+def pair_level(ctx):
+    cases = []
+    for alg in ALGS:
+        long_secret = "k" * 150
+        hashed = hashlib.new(alg, ref_key(long_secret, "salt")).digest().decode("latin-1")
+        for (s1, l1, s2, l2) in [
+                ("bc", "a", "c", "ab"), ("secret", "salt", "tsecret", "sal"), ("x", "", "", "x"), ("s\xe9", "n", "\xe9", "ns"),
+                ("bc", "a", "bc\0", "a"), ("k", "s", "k\0\0\0", "s"),
+                ("b", "\u03b1", "b", "\xce\xb1"), ("\u20ac", "s", "\xe2\x82\xac", "s"), ("k\u0100", "\xe9", "k\xc4\x80", "\xc3\xa9"),
+                (long_secret, "salt", hashed, ""), (long_secret, "salt", hashed[4:], hashed[:4]),
+                # controls: must be rejected
+                ("bc", "a", "cb", "a"), ("bc", "a", "bc", "b"), ("bc", "a", "bc\1", "a"), ("b", "\u03b1", "b", "\u03b2"),
+                (long_secret, "salt", long_secret + "x", "salt")]:
+            for v in ({"admin": True}, 1):
+                for a, b in (((s1, l1), (s2, l2)), ((s2, l2), (s1, l1))):
+                    cases.append({"kind": "pair", "secret1": a[0], "salt1": a[1], "secret2": b[0], "salt2": b[1], "alg": alg,
+                                  "value": json.dumps(v)})
+    n = 0
+    for case in cases:
+        n += 1
+        res = run_case(case)
+        if res:
+            report(ctx, case, res, "pair-level")
+    ctx.oracle_count("pair-level", n, n)
+
+
 CHECKS = {"loads": check_loads_case, "roundtrip": check_roundtrip_case, "get_value": check_get_value_case,
           "profile": check_profile_roundtrip_case, "limit": check_limit_case, "plain": check_plain_case,
           "echo": check_echo_case, "rawlimit": check_rawlimit_case, "history": check_history_case,
-          "order": check_order_case, "config": check_config_case, "sconfig": check_sconfig_case}
+          "order": check_order_case, "config": check_config_case, "sconfig": check_sconfig_case,
+          "pair": check_pair_case}
 
 
 def fresh_module():
@@ -1804,6 +1875,7 @@ def run(ctx):
     oracle(ctx)
     histories(ctx)
     configurations(ctx)
+    pair_level(ctx)
     ctx.extra["rule"] = (
         "correspondence: generated (secret, salt, digest, JSON value) configurations; for each, the token issued by the real "
         "code, random alterations of it, junk and foreign tokens are presented to the real loads/get_value/get_headers and to "
@@ -1824,7 +1896,9 @@ def run(ctx):
         "samesite incl. refused ones) supplied by keyword, positionally, after construction or per call, x SAMESITE_VALIDATION, "
         "_should_raise, 10 digests, str/bytes/mixed secrets, None/JSON/pass-through serializer, list/tuple/empty domains, three "
         "request classes, http/https, four kinds of response; SignedSerializer constructor shapes, loads of "
-        "bytes/str/bytearray/memoryview/None/int/list, values outside strict JSON, and inputs outside the statement's domain.")
+        "bytes/str/bytearray/memoryview/None/int/list, values outside strict JSON, and inputs outside the statement's domain.  "
+        "pair-level: tokens of a different (secret, salt) pair that shares the HMAC key (concatenation boundary, latin-1 vs "
+        "utf-8 fallback, trailing NULs, long key vs its hash) must be rejected; acceptances are classified per mechanism.")
     ctx.extra["exhaustive"] = False
     ctx.assume += [
         "HMAC unforgeability is the cryptographic assumption of the property: the theorems prove that any accepted token "
